@@ -278,6 +278,14 @@ func c05PreludeScenarios() (scs []c05Scenario) {
 			add(c05CliSpec{Name: "ups", IPs: []string{"10.70.0.7"}, Upstreams: []string{"[/a/]", "sdns://bogus", "tls://"}}), del("dup"), del("tags"), del("ups")),
 	)
 	scs = append(scs, c05ClientIDScenarios()...)
+	// --- pool "addrproc" (round 7): more new client addresses than the queue of
+	// the address processor takes, while its worker's reverse lookup is slow, and
+	// an admin write of the server lock in the middle
+	accBody := `{"allowed_clients":[],"disallowed_clients":["192.0.2.77"],"blocked_hosts":[]}`
+	scs = append(scs,
+		c05Scenario{label: "addrproc/burst-300-over-a-held-up-lookup", ops: []c05Op{c05Burst(300, accBody)}, probes: []c05Op{c05Q("ok.example", dns.TypeA)}},
+		c05Scenario{label: "addrproc/burst-600-twice", ops: []c05Op{c05Burst(600, accBody), c05Burst(260, accBody)}, probes: []c05Op{c05Q("ok.example", dns.TypeA)}},
+	)
 	return scs
 }
 
